@@ -744,6 +744,11 @@ class MarkFeatureWriter(BaseFeatureWriter):
                 if not anchor.isContextual:
                     continue
 
+                # skip anchors for which no mark class is defined (no mark glyph
+                # in the font attaches there), as for the non-contextual ones
+                if anchor.markClass is None:
+                    continue
+
                 # Mark glyphs go to mkmk lookups
                 if glyphName in markGlyphNames:
                     # skip anchors for which no mark class is defined
